@@ -10,6 +10,7 @@ package main
 import (
 	"fmt"
 	"math/big"
+	"os"
 )
 
 const IntW = -1
@@ -337,20 +338,34 @@ func (s *TermStore) IDivC(x *Term, c *big.Int) *Term {
 			}
 		}
 	}
+	// floor(floor(y/c1)/c) = floor(y/(c1*c))
+	if qo, ok := s.quotOf[x.id]; ok {
+		return s.IDivC(qo.x, new(big.Int).Mul(qo.c, c))
+	}
 	key := fmt.Sprintf("%d/%s", x.id, c.String())
 	if s.quots == nil {
 		s.quots = map[string]*Term{}
+		s.quotOf = map[int]quotDef{}
 	}
 	if q, ok := s.quots[key]; ok {
 		return q
 	}
 	s.quotSeq++
+	if os.Getenv("GOSYM_REFDBG") != "" {
+		fmt.Fprintf(os.Stderr, "[quot] quot!%d = x#%d / %s  x in %s..%s\n", s.quotSeq, x.id, c.String(), x.lo.String(), x.hi.String())
+	}
 	q := s.IVar(fmt.Sprintf("quot!%d", s.quotSeq), qlo, qhi)
 	// c*q <= x < c*q + c
 	cq := s.IMulC(c, q)
 	s.pending = append(s.pending, s.mkRaw(OpSle, 0, cq, x), s.mkRaw(OpSlt, 0, x, s.IAdd(cq, s.IConst(c))))
 	s.quots[key] = q
+	s.quotOf[q.id] = quotDef{x, c}
 	return q
+}
+
+type quotDef struct {
+	x *Term
+	c *big.Int
 }
 
 func (s *TermStore) IModC(x *Term, c *big.Int) *Term {
@@ -396,6 +411,12 @@ func (s *TermStore) ILt(a, b *Term) *Term {
 	if a.lo.Cmp(b.hi) >= 0 {
 		return s.ff
 	}
+	if a.op == OpIte && b.IsConst() && iteOfConsts(a, 4) {
+		return s.Ite(a.args[0], s.ILt(a.args[1], b), s.ILt(a.args[2], b))
+	}
+	if b.op == OpIte && a.IsConst() && iteOfConsts(b, 4) {
+		return s.Ite(b.args[0], s.ILt(a, b.args[1]), s.ILt(a, b.args[2]))
+	}
 	if a.op == OpLin || b.op == OpLin {
 		if d := s.ISub(a, b); d.IsConst() {
 			return s.Bool(d.bk.Sign() < 0)
@@ -414,6 +435,12 @@ func (s *TermStore) IEq(a, b *Term) *Term {
 	}
 	if a.hi.Cmp(b.lo) < 0 || b.hi.Cmp(a.lo) < 0 {
 		return s.ff
+	}
+	if a.op == OpIte && b.IsConst() && iteOfConsts(a, 4) {
+		return s.Ite(a.args[0], s.IEq(a.args[1], b), s.IEq(a.args[2], b))
+	}
+	if b.op == OpIte && a.IsConst() && iteOfConsts(b, 4) {
+		return s.Ite(b.args[0], s.IEq(a, b.args[1]), s.IEq(a, b.args[2]))
 	}
 	if a.op == OpLin || b.op == OpLin {
 		if d := s.ISub(a, b); d.IsConst() {
@@ -490,4 +517,183 @@ func intLit(v *big.Int) string {
 		return "(- " + new(big.Int).Neg(v).String() + ")"
 	}
 	return v.String()
+}
+
+// ISelect: constant-table lookup in Int mode (values stored as two's-complement int64).
+func (s *TermStore) ISelect(tab *tableT, idx *Term) *Term {
+	n := int64(len(tab.vals))
+	if idx.IsConst() {
+		i := idx.bk.Int64()
+		if idx.bk.IsInt64() && i >= 0 && i < n {
+			return s.IConst64(int64(tab.vals[i]))
+		}
+		return s.IConst(bigZero)
+	}
+	if idx.op == OpSelect && idx.w == IntW {
+		inner := idx.tab
+		nv := make([]uint64, len(inner.vals))
+		for i, v := range inner.vals {
+			if int64(v) >= 0 && int64(v) < n {
+				nv[i] = tab.vals[int64(v)]
+			}
+		}
+		return s.ISelect(internTable(nv, IntW), idx.args[0])
+	}
+	lo, hi := int64(0), n-1
+	if idx.lo.IsInt64() && idx.lo.Int64() > lo {
+		lo = idx.lo.Int64()
+	}
+	if idx.hi.IsInt64() && idx.hi.Int64() < hi {
+		hi = idx.hi.Int64()
+	}
+	if lo > hi {
+		return s.IConst(bigZero)
+	}
+	allowed := s.idomain[idx.id]
+	for allowed != nil && lo <= hi && !(int(lo) < len(allowed) && allowed[lo]) {
+		lo++
+	}
+	if lo > hi {
+		return s.IConst(bigZero)
+	}
+	ident, constant := true, true
+	mn, mx := int64(tab.vals[lo]), int64(tab.vals[lo])
+	for i := lo; i <= hi; i++ {
+		if allowed != nil && !(int(i) < len(allowed) && allowed[i]) {
+			continue
+		}
+		v := int64(tab.vals[i])
+		if v != i {
+			ident = false
+		}
+		if v != int64(tab.vals[lo]) {
+			constant = false
+		}
+		if v < mn {
+			mn = v
+		}
+		if v > mx {
+			mx = v
+		}
+	}
+	if constant {
+		return s.IConst64(int64(tab.vals[lo]))
+	}
+	if ident {
+		return idx
+	}
+	t := s.mk(&Term{op: OpSelect, w: IntW, k: uint64(tab.id), args: []*Term{idx}, tab: tab, lo: big.NewInt(mn), hi: big.NewInt(mx)})
+	return t
+}
+
+// refineFromFact narrows the interval of an Int term from a path fact comparing it with a constant
+// (terms are per path, so path facts are sound for everything derived afterwards).
+func (s *TermStore) refineFromFact(c *Term) {
+	if os.Getenv("GOSYM_REFDBG") != "" {
+		fmt.Fprintf(os.Stderr, "[refine] %.200s\n", c.String())
+	}
+	if c.op == OpBAnd {
+		s.refineFromFact(c.args[0])
+		s.refineFromFact(c.args[1])
+		return
+	}
+	if c.op == OpBNot && c.args[0].op == OpBOr {
+		s.refineFromFact(s.BNot(c.args[0].args[0]))
+		s.refineFromFact(s.BNot(c.args[0].args[1]))
+		return
+	}
+	neg := false
+	if c.op == OpBNot {
+		neg = true
+		c = c.args[0]
+	}
+	if len(c.args) != 2 || c.args[0].w != IntW {
+		return
+	}
+	// interval facts change what norm() can fold: reset its memo and make sure it runs
+	if s.sub == nil {
+		s.sub = &substCtx{m: map[int]*Term{}, memo: map[int]*Term{}}
+	}
+	s.sub.memo = map[int]*Term{}
+	s.sub.m[-1<<40] = s.tt
+	a, b := c.args[0], c.args[1]
+	if c.op == OpEq && a.IsConst() && !b.IsConst() {
+		a, b = b, a // equalities are stored with arguments ordered by id
+	}
+	one := bigOne
+	// a fact about a table lookup restricts the domain of its index
+	if a.op == OpSelect && a.w == IntW && b.IsConst() && b.bk.IsInt64() {
+		k := b.bk.Int64()
+		var pred func(v int64) bool
+		switch {
+		case c.op == OpSlt && !neg:
+			pred = func(v int64) bool { return v < k }
+		case c.op == OpSlt && neg:
+			pred = func(v int64) bool { return v >= k }
+		case c.op == OpEq && !neg:
+			pred = func(v int64) bool { return v == k }
+		case c.op == OpEq && neg:
+			pred = func(v int64) bool { return v != k }
+		}
+		if pred != nil {
+			idx := a.args[0]
+			if s.idomain == nil {
+				s.idomain = map[int][]bool{}
+			}
+			cur, ok := s.idomain[idx.id]
+			if !ok {
+				cur = make([]bool, len(a.tab.vals))
+				for i := range cur {
+					cur[i] = true
+				}
+			}
+			for i := range cur {
+				if i >= len(a.tab.vals) || !pred(int64(a.tab.vals[i])) {
+					cur[i] = false
+				}
+			}
+			s.idomain[idx.id] = cur
+			if s.sub == nil {
+				s.sub = &substCtx{m: map[int]*Term{}, memo: map[int]*Term{}}
+			}
+			s.sub.memo = map[int]*Term{}
+			s.sub.m[-1-idx.id] = s.tt
+		}
+	}
+	switch c.op {
+	case OpSlt: // a < b
+		if !neg {
+			if b.IsConst() {
+				s.refine(a, nil, new(big.Int).Sub(b.bk, one))
+			}
+			if a.IsConst() {
+				s.refine(b, new(big.Int).Add(a.bk, one), nil)
+			}
+		} else { // a >= b
+			if b.IsConst() {
+				s.refine(a, b.bk, nil)
+			}
+			if a.IsConst() {
+				s.refine(b, nil, a.bk)
+			}
+		}
+	case OpSle: // a <= b (raw side conditions)
+		if !neg {
+			if b.IsConst() {
+				s.refine(a, nil, b.bk)
+			}
+			if a.IsConst() {
+				s.refine(b, a.bk, nil)
+			}
+		}
+	case OpEq:
+		if !neg {
+			if b.IsConst() {
+				s.refine(a, b.bk, b.bk)
+			}
+			if a.IsConst() {
+				s.refine(b, a.bk, a.bk)
+			}
+		}
+	}
 }
